@@ -2141,3 +2141,8 @@ mod test {
         check_sub_expr("a ? b : c", &["a", "b", "c"]);
     }
 }
+
+// verification hooks (glass_easel_verif): compiled only under the cfg guard
+#[cfg(any(kani, glass_easel_verif))]
+#[path = "/verif/hooks/tc_parse_expr.rs"]
+mod verif;
